@@ -83,7 +83,7 @@ func NewEnv(nPool int) *Env {
 	o := chain.DefaultOpts()
 	o.NAccts = nPool + 1
 	o.Bal = 10_000_000_000_000_000 // 1e16: fees never run out
-	o.Bal2 = 0
+	o.Bal2 = 1_000_000_000_000 // the "fee in another denomination" variant must not fail for lack of funds
 	rich := new(big.Int).Mul(Cost, big.NewInt(8))
 	for _, a := range []*chain.Acct{e.Payer, e.Granter, e.Submit} {
 		o.ExtraBals = append(o.ExtraBals, banktypes.Balance{Address: a.Acc().String(), Coins: bigCoin(rich)})
